@@ -1,4 +1,5 @@
 import IsoMdl.Model.Honest
+import IsoMdl.Lemmas.Session
 /- Lemmas for C01: the holder's signing loop and one honest round. -/
 namespace IsoMdl.Honest
 open IsoMdl IsoMdl.Session
@@ -11,19 +12,20 @@ theorem submit_last (d : Device) (init : List Nat) (x s : Nat) (signed : List (N
 
 theorem signAll_signing (n : Nat) : ∀ (docs sigs : List Nat) (d : Device) (signed : List (Nat × Nat)) (st : Nat),
     docs.length = n + 1 → sigs.length = docs.length → d.st = .signing docs signed st →
+    atMax d.encCtr = false →
     signAll docs.length d sigs =
       { d with encCtr := bump d.encCtr,
                st := .ready (.ct false d.sess (bump d.encCtr).toNat (.response st (signed ++ pairsOf docs sigs)) false) } := by
   induction n with
   | zero =>
-    intro docs sigs d signed st hn hl hd
+    intro docs sigs d signed st hn hl hd hm
     match docs, sigs, hn, hl with
     | [x], [s], _, _ =>
       simp only [List.length_singleton, signAll]
       rw [submit_last d [] x s signed st (by simpa using hd)]
-      simp [Device.finalizeIfComplete, pairsOf]
+      simp [Device.finalizeIfComplete, pairsOf, hm]
   | succ n ih =>
-    intro docs sigs d signed st hn hl hd
+    intro docs sigs d signed st hn hl hd hm
     rcases List.eq_nil_or_concat docs with h | ⟨init, x, h⟩
     · subst h; simp at hn
     · rw [List.concat_eq_append] at h; subst h
@@ -43,13 +45,13 @@ theorem signAll_signing (n : Nat) : ∀ (docs sigs : List Nat) (d : Device) (sig
         have : (init ++ [x]).length = init.length + 1 := by simp
         rw [this]
         simp only [signAll]
-        rw [hsub, hfin, ih init sigs' _ (signed ++ [(x, s)]) st hlen hl' rfl]
+        rw [hsub, hfin, ih init sigs' ({ d with st := .signing init (signed ++ [(x, s)]) st } : Device) (signed ++ [(x, s)]) st hlen hl' rfl hm]
         simp [pairsOf, List.reverse_append, List.append_assoc]
 
 theorem bump_toNat_eq (a b : UInt32) (h : a = b) : (bump a).toNat = (bump b).toNat := by rw [h]
 
 theorem answer_ok (n : Nat) (d : Device) (r : Reader) (docs sigs : List Nat) (hn : docs.length = n + 1) (hl : sigs.length = docs.length)
-    (hsess : d.sess = r.sess) (henc : d.encCtr = r.decCtr) :
+    (hsess : d.sess = r.sess) (henc : d.encCtr = r.decCtr) (hm : atMax d.encCtr = false) :
     answer d r docs sigs =
       ({ d with encCtr := bump d.encCtr, st := .awaiting }, { r with decCtr := bump r.decCtr },
        some (.accepted (.response 0 (pairsOf docs sigs)))) := by
@@ -59,30 +61,45 @@ theorem answer_ok (n : Nat) (d : Device) (r : Reader) (docs sigs : List Nat) (hn
     cases docs with
     | nil => exact absurd rfl hne
     | cons a t => rfl
-  have hsig := signAll_signing n docs sigs ({ d with st := .signing docs [] 0 } : Device) [] 0 hn hl rfl
+  have hsig := signAll_signing n docs sigs ({ d with st := .signing docs [] 0 } : Device) [] 0 hn hl rfl hm
+  have hm' : atMax r.decCtr = false := by rw [← henc]; exact hm
   unfold answer
   simp only [hprep, hsig]
-  simp [Device.retrieve, Reader.handleResponse, accepts, hsess, henc]
+  simp [Device.retrieve, Reader.handleResponse, accepts, hsess, henc, hm']
 
 /-- ONE ROUND: from any in-step pair of roles, an honest round with any non-empty list of prepared
 documents and as many signatures is accepted at both ends, delivers status 0 with each document
 paired with its own signature, and leaves the roles in step. -/
-theorem round_ok (d : Device) (r : Reader) (docs sigs : List Nat) (hs : InStep d r)
+theorem atMax_false_of_lt (c : UInt32) (h : c.toNat + 1 < 2^32) : atMax c = false := by
+  cases hm : atMax c
+  · rfl
+  · have := (atMax_iff c).mp hm; omega
+
+theorem round_ok (d : Device) (r : Reader) (docs sigs : List Nat) (hs : InStep d r) (k : Nat) (hroom : Room d r (k + 1))
     (hne : docs ≠ []) (hl : sigs.length = docs.length) :
-    ∃ d' r', round d r docs sigs = (d', r', .accepted .request, some (.accepted (.response 0 (pairsOf docs sigs)))) ∧ InStep d' r' := by
+    ∃ d' r', round d r docs sigs = (d', r', some (.accepted .request), some (.accepted (.response 0 (pairsOf docs sigs)))) ∧
+      InStep d' r' ∧ Room d' r' k := by
   obtain ⟨hsess, hdec, henc, hst⟩ := hs
+  obtain ⟨hr1, hr2⟩ := hroom
+  have hmr : atMax r.encCtr = false := atMax_false_of_lt _ (by omega)
+  have hmd : atMax d.encCtr = false := atMax_false_of_lt _ (by omega)
+  have hmdd : atMax d.decCtr = false := by rw [hdec]; exact hmr
   obtain ⟨n, hn⟩ : ∃ n, docs.length = n + 1 := by
     cases docs with
     | nil => exact absurd rfl hne
     | cons a t => exact ⟨t.length, by simp⟩
   have hreq : d.handleRequest (.ct true r.sess (bump r.encCtr).toNat .request false) =
       ({ d with decCtr := bump d.decCtr }, .accepted .request) := by
-    simp [Device.handleRequest, accepts, hsess, hdec]
+    simp [Device.handleRequest, accepts, hsess, hdec, hmr]
   unfold round Reader.newRequest
-  simp only [hreq]
-  rw [answer_ok n _ _ docs sigs hn hl (by simpa using hsess) (by simpa using henc)]
-  refine ⟨_, _, rfl, ?_⟩
-  simp [InStep, hsess, hdec, henc]
+  simp only [hmr, Bool.false_eq_true, if_false, hreq]
+  rw [answer_ok n _ _ docs sigs hn hl (by simpa using hsess) (by simpa using henc) (by simpa using hmd)]
+  refine ⟨_, _, rfl, ?_, ?_⟩
+  · simp [InStep, hsess, hdec, henc]
+  · have h1 := bump_toNat r.encCtr (by omega)
+    have h2 := bump_toNat d.encCtr (by omega)
+    simp only [Room, h1, h2]
+    omega
 
 
 end IsoMdl.Honest
